@@ -8,7 +8,7 @@ from __future__ import annotations
 
 from typing import Any, Optional, Union
 
-from asphalt.core import inject, resource
+from asphalt.core import context_teardown, inject, resource
 
 
 class A:
@@ -170,6 +170,22 @@ def s_A_a_union_nonefirst(x: Any, *, r: Union[None, A] = resource("a"), k: Any =
 
 
 _reg("s_A_a_union_nonefirst", s_A_a_union_nonefirst, False, [("r", "A", "a", True)], "nonefirst")
+
+
+# -- @inject stacked on @context_teardown (an injected, start()-style generator function);
+# what the first half saw is handed back through CTD_RET
+CTD_RET: dict = {}
+
+
+@inject
+@context_teardown
+async def a_ctd_A_default(x: Any, *, r: A = resource(), k: Any = None):  # type: ignore[no-untyped-def]
+    BODY_RAN.add(CALL.get())
+    CTD_RET[CALL.get()] = {"x": x, "k": k, "r": [r]}
+    yield
+
+
+_reg("a_ctd_A_default", a_ctd_A_default, True, [("r", "A", "default", False)], "ctd")
 
 
 # -- two dependencies resolved in order, one optional
